@@ -57,4 +57,36 @@ Theorem C09_code_tie : forall ipaddr dn al dflt ip,
 Proof. exact Equiv.is_allowed_tie. Qed.
 Print Assumptions C09_code_tie.
 
+
+(* ---- tie to the code (server/middleware.py AccessControl): the statements of coq/Equiv/EquivMw.v, re-checked here against the definitions regenerated
+   from /repo's working tree (coq/Gen); see DESIGN.md 11.8 ---- *)
+From Coq Require Import List NArith ZArith QArith Bool.
+From NV Require Import Prelude.Str Prelude.Res Model.Bucket Model.Ip Model.Proxy Model.ServerProto Model.Session Equiv.ServerGlue Equiv.MwGlue.
+From NV Require Import Gen.MwGen.
+From NV Require Equiv.EquivMw.
+Theorem C09_code_ac_init_tie : forall ipnet al dl, gen_ac_init ipnet al dl = EquivMw.ac_init_spec ipnet al dl.
+Proof. exact EquivMw.ac_init_tie. Qed.
+Print Assumptions C09_code_ac_init_tie.
+
+Theorem C09_code_ac_is_allowed_tie : forall ipaddr dn al dflt ip,
+  gen_ac_is_allowed ipaddr dn al dflt ip = is_allowed {| allow := al; deny := dn; default_allow := dflt |} (ipaddr ip).
+Proof. exact EquivMw.ac_is_allowed_tie. Qed.
+Print Assumptions C09_code_ac_is_allowed_tie.
+
+Theorem C09_code_ac_process_tie : forall ipaddr dn al dflt url ip fp,
+  gen_ac_process ipaddr dn al dflt url ip fp =
+  EquivMw.ac_answer (is_allowed {| allow := al; deny := dn; default_allow := dflt |} (ipaddr ip)).
+Proof. exact EquivMw.ac_process_tie. Qed.
+Print Assumptions C09_code_ac_process_tie.
+
+Theorem C09_code_ac_server_tie : forall ipnet ipaddr s url ip fp,
+  wants_component s = true ->
+  match gen_ac_init ipnet (sc_allow s) (sc_deny s) with
+  | Ok (a, d) => Some (fst (gen_ac_process ipaddr d a (sc_default s) url ip fp))
+  | _ => None
+  end = server_admits ipnet s (ipaddr ip).
+Proof. exact EquivMw.ac_server_tie. Qed.
+Print Assumptions C09_code_ac_server_tie.
+
+
 Close Scope N_scope.
